@@ -127,6 +127,7 @@ Lemma ll_loop_step : forall f m data rest st, 1 <= m <= 254 -> zlen data + 2 < 6
   else if mk =? M_DHT then obind (ll_parse_dht (length data) data st) (fun st' => ll_loop f rest st')
   else if mk =? M_SOS then obind (ll_parse_sos data st) (fun st' => ll_decode_scan st' rest)
   else if mk =? M_EOI then Err
+  else if foreign_frame mk then Err
   else if has_length mk then ll_loop f rest st
   else ll_loop f (be16 (wrapU 16 (zlen data + 2)) ++ data ++ rest) st.
 Proof.
@@ -142,6 +143,7 @@ Lemma sv1_loop_step : forall f m data rest st, 1 <= m <= 254 -> zlen data + 2 < 
   else if mk =? M_DHT then obind (sv1_parse_dht (length data) data st) (fun st' => sv1_loop f rest st')
   else if mk =? M_SOS then obind (sv1_parse_sos data st) (fun st' => sv1_decode_scan st' rest)
   else if mk =? M_EOI then Ok (sv1_pixels st (sv1_zero_rows st))
+  else if foreign_frame mk then Err
   else if has_length mk then sv1_loop f rest st
   else sv1_loop f (be16 (wrapU 16 (zlen data + 2)) ++ data ++ rest) st.
 Proof.
@@ -191,13 +193,13 @@ Lemma znth6 : forall (a0 a1 a2 a3 a4 a5 : Z) l d,
   znth (a0 :: a1 :: a2 :: a3 :: a4 :: a5 :: l) 5 d = a5.
 Proof. intros. repeat split; reflexivity. Qed.
 
-Lemma parse_sof3_ok : forall w h comps P st,
+Lemma parse_sof3_ok : forall w h comps P st, d_w st = 0 -> d_h st = 0 ->
   1 <= w <= 65535 -> 1 <= h <= 65535 -> comps = 1 \/ comps = 3 -> 2 <= P <= 16 ->
   ll_parse_sof3 (sof3_data w h comps P) st =
   Ok (mkD w h comps P (d_pred st) (d_tabs st) (d_sels st)).
 Proof.
-  intros w h comps P st Hw Hh Hc HP. unfold sof3_data. set (tl := flat_map _ _). cbn [app].
-  unfold ll_parse_sof3.
+  intros w h comps P st Hw0 Hh0 Hw Hh Hc HP. unfold sof3_data. set (tl := flat_map _ _). cbn [app].
+  unfold ll_parse_sof3. rewrite Hw0, Hh0. change (negb (0 =? 0) || negb (0 =? 0)) with false. cbv iota.
   destruct (znth6 (byte_of P) (byte_of (Z.shiftr h 8)) (byte_of h) (byte_of (Z.shiftr w 8))
                   (byte_of w) (byte_of comps) tl 0) as (E0 & E1 & E2 & E3 & E4 & E5).
   rewrite E0, E1, E2, E3, E4, E5.
@@ -369,12 +371,12 @@ Proof. reflexivity. Qed.
 
 Lemma encode_stream_fwd : forall w h comps P pred diffs bits vals,
   build_optimal (count_freqs diffs) = Ok (bits, vals) ->
-  encode_stream w h comps P pred diffs =
-  if lookup_ok bits 0 0 (zlen vals) then Ok (stream_of w h comps P pred diffs bits vals) else Panic.
+  encode_stream w h comps P pred diffs = Ok (stream_of w h comps P pred diffs bits vals).
 Proof.
   intros w h comps P pred diffs bits vals Hopt.
   unfold encode_stream, build_optimal_table. rewrite Hopt. rewrite obind_Ok.
-  unfold build_table, fst, snd. destruct (lookup_ok bits 0 0 (zlen vals)); reflexivity.
+  unfold fst, snd. pose proof (build_table_never_panics bits vals) as Hnp.
+  destruct (build_table bits vals); try contradiction; reflexivity.
 Qed.
 
 Definition covers (vals diffs : list Z) : Prop := Forall (fun d => In (diff_category d) vals) diffs.
@@ -392,9 +394,8 @@ Proof.
   intros w h comps P pred rows bits vals Hw Hh Hc HP Hpred Hlen Hrows diffs Ediffs Hok Hcov.
   rewrite ll_diffs_rows_map in Ediffs.
   pose proof (table_ok_facts _ _ Hok) as F.
-  pose proof (lookup_ok_facts bits vals F) as Elk.
   unfold stream_of.
-  assert (Hbt : build_table bits vals = Ok (ht_of bits vals)) by (unfold build_table; rewrite Elk; reflexivity).
+  pose proof (build_table_facts bits vals F) as Hbt.
   (* the scan bytes *)
   assert (Hdok : diffs_ok vals diffs).
   { unfold diffs_ok. apply Forall_forall. intros d Hd. split.
@@ -413,7 +414,7 @@ Proof.
   destruct Hfuel as [f Hf]. rewrite Hf. unfold rest.
   rewrite ll_step_app0 by (vm_compute; reflexivity).
   rewrite ll_step_sof3 by (rewrite sof3_len by assumption; lia).
-  rewrite parse_sof3_ok by assumption. cbn [obind d_init d_pred d_tabs d_sels].
+  rewrite parse_sof3_ok by (assumption || reflexivity). cbn [obind d_init d_pred d_tabs d_sels].
   rewrite dht_data_ok by assumption.
   rewrite ll_step_dht by (pose proof (dht_len bits vals F); lia).
   rewrite (parse_dht_ok bits vals (ht_of bits vals)) by assumption.
@@ -459,7 +460,7 @@ Lemma ll_decode_stream : forall w h comps P pred rows bits vals s,
 Proof.
   intros w h comps P pred rows bits vals s Hw Hh Hc HP Hpred Hlen Hrows diffs Ediffs Hopt Hok Hcov Henc.
   pose proof (encode_stream_fwd w h comps P pred diffs bits vals Hopt) as Hf. rewrite Henc in Hf.
-  rewrite (lookup_ok_facts bits vals (table_ok_facts _ _ Hok)) in Hf. apply Ok_inj in Hf. subst s.
+  apply Ok_inj in Hf. subst s.
   eapply ll_decode_stream_of; eassumption.
 Qed.
 
@@ -482,6 +483,7 @@ Proof.
   intros w h comps P pixels (Hw & Hh & Hc & HP & Hlen & _). unfold params_ok.
   rewrite Hlen. rewrite Z.leb_refl.
   destruct (Z.ltb_spec 0 w); [|lia]. destruct (Z.ltb_spec 0 h); [|lia].
+  destruct (Z.leb_spec w 65535); [|lia]. destruct (Z.leb_spec h 65535); [|lia].
   destruct (Z.leb_spec 2 P); [|lia]. destruct (Z.leb_spec P 16); [|lia].
   destruct Hc; subst comps; reflexivity.
 Qed.
@@ -566,11 +568,12 @@ Qed.
 Definition sv1_comp_list (comps : Z) : list (Z * Z) :=
   if comps =? 1 then [(1, 0)] else [(1, 0); (2, 0); (3, 0)].
 
-Lemma sv1_parse_sof3_ok : forall w h comps P st,
+Lemma sv1_parse_sof3_ok : forall w h comps P st, s_w st = 0 -> s_h st = 0 ->
   1 <= w <= 65535 -> 1 <= h <= 65535 -> comps = 1 \/ comps = 3 -> 2 <= P <= 16 ->
   sv1_parse_sof3 (sof3_data w h comps P) st = Ok (mkS w h P (sv1_comp_list comps) (s_tabs st)).
 Proof.
-  intros w h comps P st Hw Hh Hc HP. unfold sv1_parse_sof3.
+  intros w h comps P st Hw0 Hh0 Hw Hh Hc HP. unfold sv1_parse_sof3.
+  rewrite Hw0, Hh0. change (negb (0 =? 0) || negb (0 =? 0)) with false. cbv iota.
   rewrite sof3_len by assumption.
   unfold sof3_data. set (tl := flat_map _ _). cbn [app].
   destruct (znth6 (byte_of P) (byte_of (Z.shiftr h 8)) (byte_of h) (byte_of (Z.shiftr w 8))
@@ -629,9 +632,8 @@ Proof.
   intros w h comps P rows bits vals Hw Hh Hc HP Hlen Hrows diffs Ediffs Hok Hcov.
   rewrite sv1_diffs_rows_map in Ediffs.
   pose proof (table_ok_facts _ _ Hok) as F.
-  pose proof (lookup_ok_facts bits vals F) as Elk.
   unfold stream_of.
-  assert (Hbt : build_table bits vals = Ok (ht_of bits vals)) by (unfold build_table; rewrite Elk; reflexivity).
+  pose proof (build_table_facts bits vals F) as Hbt.
   assert (Hdok : diffs_ok vals diffs).
   { unfold diffs_ok. apply Forall_forall. intros d Hd. split.
     - revert d Hd. apply Forall_forall. rewrite Ediffs. apply rows_map_Forall.
@@ -648,7 +650,7 @@ Proof.
   destruct Hfuel as [f Hf]. rewrite Hf. unfold rest.
   rewrite sv1_step_app0 by (vm_compute; reflexivity).
   rewrite sv1_step_sof3 by (rewrite sof3_len by assumption; lia).
-  rewrite sv1_parse_sof3_ok by assumption. cbn [obind s_init s_tabs].
+  rewrite sv1_parse_sof3_ok by (assumption || reflexivity). cbn [obind s_init s_tabs].
   rewrite dht_data_ok by assumption.
   rewrite sv1_step_dht by (pose proof (dht_len bits vals F); lia).
   rewrite (sv1_parse_dht_ok bits vals (ht_of bits vals)) by assumption.
@@ -695,7 +697,7 @@ Lemma sv1_decode_stream : forall w h comps P rows bits vals s,
 Proof.
   intros w h comps P rows bits vals s Hw Hh Hc HP Hlen Hrows diffs Ediffs Hopt Hok Hcov Henc.
   pose proof (encode_stream_fwd w h comps P 1 diffs bits vals Hopt) as Hf. rewrite Henc in Hf.
-  rewrite (lookup_ok_facts bits vals (table_ok_facts _ _ Hok)) in Hf. apply Ok_inj in Hf. subst s.
+  apply Ok_inj in Hf. subst s.
   eapply sv1_decode_stream_of; eassumption.
 Qed.
 
